@@ -848,3 +848,14 @@ Proof.
   destruct (IH (set_connptr w None st)) as (H1 & H2 & H3 & H4 & H5 & H6 & H7 & H8).
   rewrite H1, H2, H3, H4, H5, H6, H7, H8. destruct w; repeat split.
 Qed.
+
+Lemma null_watchers_shared ws : forall st, shared (null_watchers ws st) = shared st.
+Proof.
+  induction ws as [|w ws IH]; intro st; cbn [null_watchers]; [reflexivity|].
+  rewrite IH. destruct w; reflexivity.
+Qed.
+
+Lemma set_sb_shared l sb st : shared (set_sb l sb st) = shared st.
+Proof.
+  destruct l as [s|i n]; unfold set_sb; [reflexivity|]. destruct (aget i (impls st)); reflexivity.
+Qed.
